@@ -165,3 +165,87 @@ pub fn to_script(c: &SweepCase, k: u64) -> Script {
     }
     Script { mode: Mode::Safe, layout_seed: k.wrapping_mul(0x9E37_79B9_7F4A_7C15), ops, cleanup: vec![0] }
 }
+
+// ---- C11: fault enumeration ------------------------------------------------------
+//
+// Every adoption graph on n = 1..3 objects with multiplicity <= 1 per ordered
+// pair (self pairs included) x kept/dropped roots x Weak to every object or none
+// x every drop order x *which object's destructor panics* (one armed panic per
+// teardown).  Which position in the destruction order that object takes depends
+// on the table order, which varies with the per-case layout seed, so across the
+// sweep every member position of every small group shape panics.
+
+pub fn total_c11() -> u64 {
+    let mut t = 0u64;
+    for n in 1..=3usize {
+        let graphs = 2u64.pow((n * n) as u32);
+        t += graphs * (1u64 << n) * 2 * perms(n).len() as u64 * n as u64 * 2;
+    }
+    t
+}
+
+pub fn script_c11(mut k: u64) -> (SweepCase, usize, Script) {
+    let k0 = k;
+    for n in 1..=3usize {
+        let graphs = 2u64.pow((n * n) as u32);
+        let ps = perms(n);
+        let size = graphs * (1u64 << n) * 2 * ps.len() as u64 * n as u64 * 2;
+        if k < size {
+            let mut g = k % graphs;
+            k /= graphs;
+            let keep = (k % (1 << n)) as u8;
+            k /= 1 << n;
+            let weak = k % 2 == 1;
+            k /= 2;
+            let order = ps[(k % ps.len() as u64) as usize].clone();
+            k /= ps.len() as u64;
+            let who = (k % n as u64) as usize;
+            k /= n as u64;
+            let observe_too = k % 2 == 1;
+            let mut mult = vec![0u8; n * n];
+            for m in mult.iter_mut() {
+                *m = (g % 2) as u8;
+                g /= 2;
+            }
+            let c = SweepCase { n, mult, keep, weak, order, unrecorded: None, loopback: None };
+            let mut s = to_script(&c, k0);
+            // arm the panic in object `who` (the i-th New op)
+            let mut seen = 0;
+            for op in s.ops.iter_mut() {
+                if let Op::New(d) = op {
+                    if seen == who {
+                        if observe_too {
+                            d.push(DAct::Observe);
+                        }
+                        d.push(DAct::Panic);
+                    } else if observe_too {
+                        d.push(DAct::UpgradeOwnWeak(0));
+                    }
+                    seen += 1;
+                }
+            }
+            return (c, who, s);
+        }
+        k -= size;
+    }
+    unreachable!()
+}
+
+pub fn total_for(id: &str) -> u64 {
+    if id == "C11" {
+        total_c11()
+    } else {
+        total()
+    }
+}
+
+pub fn script_for(id: &str, k: u64) -> (String, Script) {
+    if id == "C11" {
+        let (c, who, s) = script_c11(k);
+        (format!("{:?} panic in destructor of object {}", c, who), s)
+    } else {
+        let c = case(k);
+        let s = to_script(&c, k);
+        (format!("{:?}", c), s)
+    }
+}
